@@ -95,6 +95,10 @@ def run(ctx: Ctx) -> int:
                 except qgen.CannotGenerate:
                     continue
                 md = diff.members_used(s, q["query"])
+                if R.random() < 0.3:
+                    # registered namespaces (define_enum) must not capture a lambda parameter that happens to carry their name
+                    md = md + [{"metadata_type": "define_enum", "namespace": "xAOD.Jet", "name": "Color", "values": ["Red", "Blue"]},
+                               {"metadata_type": "define_enum", "namespace": "Trig", "name": "Bits", "values": ["A", "B"]}]
                 groups.append((backend, q, make_variants(ctx, q["query"], md, R)))
     for f in karg:
         w = f["witness"]
